@@ -3,6 +3,7 @@ package main
 import (
 	"context"
 	"fmt"
+	"strings"
 	"sync/atomic"
 	"time"
 
@@ -255,8 +256,23 @@ func c15Round(r *Run, idx int) {
 // H4); its deadline passing under virtual time while it lives in either tier; deleted; stored again. After every
 // demotion of a live value the next Get must return that value without a loader run - also when the value now
 // being demoted replaced an expired or deleted predecessor whose copy the secondary store may still have held.
-func c15Script(r *Run, idx int) {
+func c15Script(r *Run, idx int) { lifeScript(r, idx, "C15") }
+
+// lifeScript serves two properties with one scenario generator: for C15 the oracle is retrievability after a
+// processed demotion; for C14 it is that no Get (answered from either tier, without the loader having run) returns a
+// value whose deadline has passed, whose Delete has completed, or that a later Set has replaced. Each run reports
+// only what belongs to its own property. For C14 the cached clock is, every other time, left un-refreshed when
+// virtual time moves (lag below the 30 s the read path tolerates), and the cache's expiry sweep never runs by
+// itself in virtual time - an expired entry stays in the map until something looks at it.
+func lifeScript(r *Run, idx int, prop string) {
 	rng := r.Rng(int64(15500 + idx))
+	if prop == "C14" {
+		rng = r.Rng(int64(14900 + idx))
+	}
+	if prop == "C03" { // C03 judges the same lives, but only what concerns deadlines
+		rng = r.Rng(int64(13300 + idx))
+	}
+	judged := prop == "C14" || prop == "C03"
 	kind := []string{"hybrid", "hybrid-loading"}[idx%2]
 	bar := &secBarrier{}
 	internal.VerifSetHook(bar.hook)
@@ -284,10 +300,24 @@ func c15Script(r *Run, idx int) {
 		demoted  bool
 	}
 	var cur *live
+	type dead struct {
+		val int64
+		why string
+	}
+	var gone []dead // values that must not be served any more, with the reason
+	retire := func(why string) {
+		if cur != nil {
+			gone = append(gone, dead{cur.val, why})
+		}
+		cur = nil
+	}
 	seq := int64(0)
 	pickTTL := func() time.Duration {
 		if rng.Intn(5) < 2 {
 			return 0
+		}
+		if judged {
+			return time.Duration(3+rng.Intn(20)) * time.Second // so that an un-refreshed cached clock lags by < 30 s
 		}
 		return time.Duration(5+rng.Intn(200)) * time.Second
 	}
@@ -312,6 +342,7 @@ func c15Script(r *Run, idx int) {
 				step("Set(%d,%d,ttl %v) -> false", k, v, ttl)
 				continue
 			}
+			retire("replaced by a later Set")
 			cur = &live{val: v}
 			if ttl > 0 {
 				cur.deadline = st.VerifNowNano() + int64(ttl)
@@ -327,7 +358,33 @@ func c15Script(r *Run, idx int) {
 			if err != nil {
 				continue
 			}
-			if cur != nil && cur.demoted {
+			if judged {
+				checked++
+				r.Count("life_script_gets_judged", 1)
+				if ok && !ran && (cur == nil || v != cur.val) {
+					why := "a value that was never stored"
+					for _, g := range gone {
+						if g.val == v {
+							why = g.why
+						}
+					}
+					key := map[string]string{"replaced by a later Set": "stale-read/get-after-overwrite", "its Delete completed": "stale-read/get-after-delete", "its deadline passed while it was in memory": "served-expired/from-memory-tier",
+						"its deadline passed while it was in the secondary tier": "served-expired/from-secondary-tier"}[why]
+					if key == "" {
+						key = "non-linearizable/other"
+					}
+					if prop == "C03" && !strings.HasPrefix(key, "served-expired") {
+						continue // not a deadline matter: C14's business
+					}
+					r.Violate(key+"/life-script/"+kind, fmt.Sprintf("life script %d (%s): Get returned %d although %s; steps: %v", idx, kind, v, why, steps),
+						map[string]any{"script": idx, "cache": kind, "steps": steps, "secondary_log": tailLog(a.sec.log(), 12)})
+					return
+				}
+				if cur != nil && ok && !ran {
+					cur.demoted = false
+				}
+			}
+			if prop == "C15" && cur != nil && cur.demoted {
 				checked++
 				r.Count("gets_after_a_demotion", 1)
 				if ran || !ok || v != cur.val {
@@ -344,6 +401,7 @@ func c15Script(r *Run, idx int) {
 				cur.demoted = false // promoted again
 			}
 			if ran {
+				retire("replaced by a later load")
 				cur = &live{val: v}
 				if ttl > 0 {
 					cur.deadline = st.VerifNowNano() + int64(ttl)
@@ -372,14 +430,18 @@ func c15Script(r *Run, idx int) {
 				d = time.Second
 			}
 			a.wait()
-			st.VerifShiftClock(d, true)
 			st.VerifRefreshClock()
-			step("virtual time +%v (deadline passed while in %s)", d, map[bool]string{true: "the secondary tier", false: "memory"}[cur.demoted])
-			cur = nil
+			st.VerifShiftClock(d, true)
+			lagging := judged && d < 29*time.Second && rng.Intn(2) == 0
+			if !lagging {
+				st.VerifRefreshClock()
+			}
+			step("virtual time +%v (deadline passed while in %s; cached clock refreshed: %v)", d, map[bool]string{true: "the secondary tier", false: "memory"}[cur.demoted], !lagging)
+			retire(map[bool]string{true: "its deadline passed while it was in the secondary tier", false: "its deadline passed while it was in memory"}[cur.demoted])
 		default:
 			if err := a.del(k); err == nil {
 				step("Delete(%d)", k)
-				cur = nil
+				retire("its Delete completed")
 			}
 		}
 	}
